@@ -38,6 +38,8 @@ PROPS['C06'] = {
         dict(name='mutex_T2_S2', kernel='C06_mutex.cpp', prefix='mx_', mode='res', lower_defs=['-DNTHREADS=2'], shim='shim_sync', inline=20000, R=3, BMAX=60, unwind=3, covers=[0], timeout=1500),
         dict(name='spinlock_T2_S2', kernel='C06_spinlock.cpp', prefix='spl_', mode='res', lower_defs=['-DNTHREADS=2', '-DNSEC=2'], inline=20000, R=3, BMAX=60, unwind=3, covers=[0], timeout=2400),
         dict(name='spinlock_T3_S1', kernel='C06_spinlock.cpp', prefix='spl_', mode='res', lower_defs=['-DNTHREADS=3', '-DNSEC=1'], inline=20000, R=4, BMAX=60, unwind=3, covers=[0], timeout=7000, tiers=('thorough',)),
+        dict(name='spinlock_lowlevel_T2_S2', kernel='C06_spinlock.cpp', prefix='spl_', mode='res', lower_defs=['-DNTHREADS=2', '-DNSEC=2', '-DLOWLEVEL'], inline=20000, R=3, BMAX=60, unwind=3, covers=[0], timeout=2400),
+        dict(name='recursive_mutex_T2', kernel='C06_recursive.cpp', prefix='rmx_', mode='res', inline=20000, R=3, BMAX=60, unwind=3, covers=[0], timeout=2400),
         dict(name='mutex_misuse', kernel='C06_mutex.cpp', prefix='misuse_', mode='seq', lower_defs=['-DNTHREADS=2'], shim='shim_sync', inline=20000, unwind=6),
         dict(name='mutex_T3_S1', kernel='C06_mutex.cpp', prefix='mx_', mode='res', lower_defs=['-DNTHREADS=3', '-DNSEC=1'], shim='shim_sync', inline=20000, R=3, BMAX=60, unwind=3, tiers=('thorough',), timeout=6000),
     ],
@@ -57,6 +59,7 @@ PROPS['C08'] = {
     'assumptions': SYNC_ASSUMPTIONS + ['counting_semaphore<>: initial count in [0,2], release(n) with n in [1,2], 2 operations per thread.'],
     'queries': [
         dict(name='sem_release2_two_waiters', kernel='C08_semaphore.cpp', prefix='csem3_', mode='res', lower_defs=['-DNTHREADS=2'], shim='shim_sync', inline=20000, R=3, BMAX=60, unwind=3, covers=[0], timeout=2400),
+        dict(name='sliding_T2', kernel='C08_sliding.cpp', prefix='sld_', mode='res', lower_defs=['-DNTHREADS=2'], shim='shim_sync', inline=20000, R=3, BMAX=60, unwind=3, covers=[0], timeout=2400),
         dict(name='sem_T2_K2', kernel='C08_semaphore.cpp', prefix='csem_', mode='res', lower_defs=['-DNTHREADS=2'], shim='shim_sync', inline=20000, R=3, BMAX=60, unwind=3,
              unwindset=['csem_final__step.0:14'], covers=[0], timeout=2400),
     ],
@@ -142,4 +145,54 @@ PROPS['C12'] = {
     'queries': [
         dict(name='recycle_stackless', kernel='C12_recycle.cpp', prefix='rec_', mode='seq', inline=20000, unwind=4, covers=[0], timeout=1800),
     ],
+}
+
+THREAD_ASSUMPTIONS = [
+    'Real thread.cpp, thread_data.cpp (exit callbacks, interruption), thread_data_stackless, thread_helpers.cpp; the coroutine switch is replaced by its contract '
+    '(verif_self implements the abstract coroutine_self: yield(suspended) blocks until resumed); set_thread_state (wake-up path) is the contract "a resume issued after the task asked to be suspended makes that yield return".',
+    'Stand-in thread pool (env_pool.hpp) creates real stackless task objects; a harness thread plays the worker that runs the new task (a stackless task runs its whole body in one phase).',
+    'pika::detail::spinlock back-off = one polling step; spinlock_pool has one lock; internal concurrency::detail::spinlock by contract.',
+]
+PROPS['C13'] = {
+    'assumptions': THREAD_ASSUMPTIONS + ['jthread, interruption delivery and detach are not covered yet.'],
+    'queries': [
+        dict(name='join_vs_exit', kernel='C13_thread_join.cpp', prefix='jn_', mode='res', shim='shim_sync', inline=20000, R=3, BMAX=80, unwind=3, covers=[0], timeout=2400),
+    ],
+}
+
+PROPS['C04'] = {
+    'assumptions': SYNC_ASSUMPTIONS[:1] + [
+        'Real async_rw_mutex.hpp (async_rw_mutex<void>): shared states, op_state_head CAS list, done(), libstdc++ shared_ptr control blocks with atomic reference counts (as emitted into the IR).',
+        'NACC accesses requested in program order with symbolic kinds; each access is started by its own thread, which waits for the grant and then releases the wrapper; '
+        'dropped-unstarted senders, wrapper copies and the wrapped value (async_rw_mutex<T>) are not covered yet.',
+    ],
+    'queries': [
+        dict(name='rw_two_accesses', kernel='C04_rw_mutex.cpp', prefix='rw_', mode='res', lower_defs=['-DNACC=2'], shim='shim_sync', inline=20000, R=3, BMAX=100, unwind=3, covers=[0], timeout=3000,
+             unwind_rules=[(r'^verif_rt_strcmp', 64)]),
+        dict(name='rw_three_accesses', kernel='C04_rw_mutex.cpp', prefix='rw_', mode='res', lower_defs=['-DNACC=3'], shim='shim_sync', inline=20000, R=3, BMAX=100, unwind=4, covers=[0], timeout=10000,
+             unwind_rules=[(r'^verif_rt_strcmp', 64)], tiers=('thorough',)),
+    ],
+}
+
+def _c03(name, prefix, unwind=4, timeout=1800, tiers=('quick', 'thorough')):
+    return dict(name=name, kernel='C03_adaptors.cpp', prefix=prefix, mode='seq', shim='shim_sync', inline=20000, unwind=unwind, covers=[0], timeout=timeout, tiers=tiers)
+
+PROPS['C03'] = {
+    'assumptions': [
+        'Each adaptor (then, let_value, let_error, when_all, split, ensure_started, drop_value) is the real header code instantiated on a test leaf sender that completes INLINE in start() on a symbolic '
+        'channel (value v / error e / stopped) and connected to a recording receiver; the oracle is the completion the composition denotes (differential). Exceptions are modelled (DESIGN 4.4).',
+        'Not covered: completions arriving later from another thread, concurrent consumers, compositions deeper than 1, split_tuple, when_all_vector, schedule_from/continues_on, require_started, unpack, '
+        'drop_operation_state, start_detached, sync_wait, any_sender; object-lifetime ledger.',
+    ],
+    'queries': [_c03('then_inline', 'then_'), _c03('let_value_inline', 'let_'), _c03('let_error_inline', 'lete_'), _c03('when_all_inline', 'wall_'), _c03('split_two_consumers_inline', 'split_'),
+                _c03('ensure_started_inline', 'ens_'), _c03('drop_value_inline', 'drop_')],
+}
+
+PROPS['C10'] = {
+    'assumptions': [
+        'Reduced claim (scheduler/pool level only): real thread_pool_scheduler::execute, its schedule-sender operation state, schedule_from/continues_on and then; two stand-in pools (env_pool.hpp) record '
+        'on which pool each task was registered; "runs on a worker of that pool" is observed as "runs inside a task that was registered on that pool". Identity/exit callbacks of the worker task are environment.',
+        'NOT covered: worker-hint placement under the static policies (queue selection in the *_queue_scheduler classes), std_thread_scheduler, bulk placement, resource-partitioner layouts, OS-level thread identity.',
+    ],
+    'queries': [dict(name='placement_two_pools', kernel='C10_placement.cpp', prefix='plc_', mode='seq', inline=20000, unwind=4, covers=[0], timeout=1800)],
 }
